@@ -67,6 +67,11 @@ Proof.
   intros H. unfold chunk_of, CG_MAX_INT32. destruct left; [congruence|]. simpl length. lia.
 Qed.
 
+Lemma cg_max_ge1 : 1 <= CG_MAX_INT32.
+Proof. unfold CG_MAX_INT32. lia. Qed.
+
+Global Opaque CG_MAX_INT32.
+
 Lemma accepted_0 rs : accepted rs 0 = (0%nat, false).
 Proof. destruct rs; reflexivity. Qed.
 
@@ -199,6 +204,146 @@ Proof.
         split; [reflexivity|]. simpl. repeat split; auto; try lia.
         -- intros Hnil; discriminate.
         -- rewrite Nat.eqb_refl. simpl. now rewrite Nat.add_0_r.
-        -- right. repeat split; simpl; lia.
 Qed.
 
+
+(* C14_retry: ADFI_write returns the full length iff the stream lets every byte through (short counts and EINTR
+   retried), -1 iff a hard error comes first; the bytes that reached the disk are a prefix of the data, laid
+   contiguously from the seek position; the write calls are contiguous (no byte twice, none skipped). *)
+Theorem adfi_write_retry : forall o data,
+  exists r o' newl,
+    adfi_write o data = Some (r, o') /\
+    let '(k, e) := accepted (resps o) (length data) in
+    disk o' = wsplice (disk o) (pos o) (firstn k data) /\ pos o' = (pos o + k)%nat /\
+    rderr o' = rderr o /\ (resps o = [] -> resps o' = []) /\
+    log o' = newl ++ log o /\ contig (pos o) (rev newl) = Some (pos o') /\
+    ((e = false /\ r = Z.of_nat (length data) /\ k = length data) \/
+     (e = true /\ r = -1 /\ (k < length data)%nat)).
+Proof.
+  intros o data. unfold adfi_write, write_fuel.
+  destruct (write_loop_spec (S (length (resps o) + length data)) (set_sys_err o 0) data 0) as (r & o' & nl & H & S).
+  { simpl. lia. } { lia. }
+  exists r, o', nl. split; [exact H|]. simpl in S.
+  destruct (accepted (resps o) (length data)) as [k e].
+  destruct S as (H1 & H2 & H3 & H4 & H5 & H6 & H7 & H8). repeat split; auto.
+Qed.
+
+Corollary adfi_write_full : forall o data r o',
+  adfi_write o data = Some (r, o') -> r = Z.of_nat (length data) ->
+  disk o' = wsplice (disk o) (pos o) data /\ pos o' = (pos o + length data)%nat /\ rderr o' = rderr o /\
+  (resps o = [] -> resps o' = []).
+Proof.
+  intros o data r o' H Hr. destruct (adfi_write_retry o data) as (r1 & o1 & nl & H1 & S).
+  rewrite H in H1. inversion H1; subst r1 o1. clear H1.
+  destruct (accepted (resps o) (length data)) as [k e].
+  destruct S as (H2 & H3 & H4 & H5 & _ & _ & [(E1 & E2 & E3)|(E1 & E2 & E3)]).
+  - subst k. rewrite firstn_all in H2. auto.
+  - lia.
+Qed.
+
+Lemma adfi_write_ideal : forall o data, resps o = [] ->
+  exists o', adfi_write o data = Some (Z.of_nat (length data), o').
+Proof.
+  intros o data Hr. destruct (adfi_write_retry o data) as (r1 & o1 & nl & H1 & S).
+  rewrite Hr in S.
+  assert (A : accepted [] (length data) = (length data, false)) by (destruct (length data); reflexivity).
+  rewrite A in S. destruct S as (_ & _ & _ & _ & _ & _ & [(E1 & E2 & E3)|(E1 & _)]); [|discriminate].
+  subst r1. eauto.
+Qed.
+
+(* ------------------------------------------------------------------ ADFI_read *)
+Lemma skipn_firstn_nil {A} (l : list A) p : (length l <= p)%nat -> skipn p l = [].
+Proof. intros H. apply skipn_all2. exact H. Qed.
+
+Lemma read_loop_spec : forall fuel o lft acc,
+  (length (resps o) + lft < fuel)%nat ->
+  exists r bytes o',
+    adfi_read_loop fuel o lft acc = Some (r, bytes, o') /\ disk o' = disk o /\
+    (resps o = [] -> resps o' = []) /\
+    ((r = -1 /\ rderr o' = true) \/
+     (bytes = acc ++ firstn lft (skipn (pos o) (disk o)) /\ r = Z.of_nat (length bytes) /\
+      pos o' = (pos o + length (firstn lft (skipn (pos o) (disk o))))%nat /\ rderr o' = rderr o)).
+Proof.
+  induction fuel as [|f IH]; intros o lft acc Hf; [lia|].
+  destruct lft as [|n0].
+  - exists (Z.of_nat (length acc)), acc, o. simpl. repeat split; auto. right.
+    rewrite app_nil_r. repeat split; auto.
+  - set (lft := S n0) in *.
+    set (c := Z.to_nat (Z.min (Z.of_nat lft) CG_MAX_INT32)).
+    assert (Hc : (1 <= c <= lft)%nat).
+    { unfold c. pose proof cg_max_ge1. unfold lft. lia. }
+    change (adfi_read_loop (S f) o lft acc) with
+      (let '(n, errno, bytes, o') := sys_read o c in
+       if n =? 0 then Some (Z.of_nat (length acc), acc, o')
+       else if n =? -1 then
+         if errno =? EINTR then adfi_read_loop f o' lft acc else Some (-1, acc, set_sys_err o' errno)
+       else adfi_read_loop f o' (lft - length bytes) (acc ++ bytes)).
+    set (avail := (length (disk o) - pos o)%nat).
+    assert (Hav : length (skipn (pos o) (disk o)) = avail) by (rewrite skipn_length; reflexivity).
+    (* the successful-delivery case, shared by "exhausted stream" and "Ok n" *)
+    assert (deliver : forall want rs', (1 <= want <= lft)%nat -> (length rs' + lft <= length (resps o) + lft)%nat ->
+              (resps o = [] -> rs' = []) ->
+              let m := Nat.min want avail in
+              let o1 := mkOs (disk o) (pos o + m) rs' (sys_err o) (LRead (pos o) c (Z.of_nat m) :: log o) (rderr o) in
+              exists r bytes o',
+                (if Z.of_nat m =? 0 then Some (Z.of_nat (length acc), acc, o1)
+                 else if Z.of_nat m =? -1 then
+                   if 0 =? EINTR then adfi_read_loop f o1 lft acc else Some (-1, acc, set_sys_err o1 0)
+                 else adfi_read_loop f o1 (lft - length (firstn m (skipn (pos o) (disk o))))
+                        (acc ++ firstn m (skipn (pos o) (disk o)))) = Some (r, bytes, o') /\
+                disk o' = disk o /\ (resps o = [] -> resps o' = []) /\
+                ((r = -1 /\ rderr o' = true) \/
+                 (bytes = acc ++ firstn lft (skipn (pos o) (disk o)) /\ r = Z.of_nat (length bytes) /\
+                  pos o' = (pos o + length (firstn lft (skipn (pos o) (disk o))))%nat /\ rderr o' = rderr o))).
+    { intros want rs' Hw Hlen Hnil m o1.
+      destruct (Nat.eq_dec m 0) as [Hm0|Hm0].
+      - (* end of file *)
+        rewrite Hm0. change (Z.of_nat 0 =? 0) with true. cbv iota.
+        exists (Z.of_nat (length acc)), acc, o1. repeat split; auto.
+        right. assert (avail = 0%nat) by (unfold m in Hm0; lia).
+        assert (E : skipn (pos o) (disk o) = []) by (apply length_zero_iff_nil; lia).
+        rewrite E, firstn_nil, app_nil_r. simpl. repeat split; auto; subst o1; simpl; lia.
+      - assert (E0 : (Z.of_nat m =? 0) = false) by (apply Z.eqb_neq; lia).
+        assert (E1 : (Z.of_nat m =? -1) = false) by (apply Z.eqb_neq; lia).
+        rewrite E0, E1.
+        assert (Hfl : length (firstn m (skipn (pos o) (disk o))) = m).
+        { rewrite firstn_length, Hav. unfold m. lia. }
+        rewrite Hfl.
+        destruct (IH o1 (lft - m)%nat (acc ++ firstn m (skipn (pos o) (disk o)))) as (r & bytes & o' & Hrun & Hd & Hn & Hres).
+        { subst o1; cbn [resps]. assert (1 <= m)%nat by lia. assert (m <= lft)%nat by (unfold m; lia). lia. }
+        exists r, bytes, o'. split; [exact Hrun|]. split; [rewrite Hd; reflexivity|].
+        split; [intros Hx; apply Hn; subst o1; simpl; auto|].
+        destruct Hres as [Hres|(B1 & B2 & B3 & B4)]; [left; exact Hres|right].
+        subst o1; cbn [disk pos rderr resps] in *.
+        assert (Esplit : firstn lft (skipn (pos o) (disk o)) =
+                         firstn m (skipn (pos o) (disk o)) ++ firstn (lft - m) (skipn (pos o + m) (disk o))).
+        { replace lft with (m + (lft - m))%nat at 1 by (unfold m; lia).
+          rewrite firstn_plus. f_equal. f_equal. rewrite skipn_plus. reflexivity. }
+        repeat split; auto.
+        + rewrite B1, Esplit. now rewrite app_assoc.
+        + rewrite B3, Esplit, app_length, Hfl. lia. }
+    unfold sys_read. fold avail.
+    destruct (resps o) as [|[n| |e] rs] eqn:Hr.
+    + destruct (deliver c [] Hc ltac:(simpl; lia) ltac:(auto)) as (r & bytes & o' & H & R). 
+      exists r, bytes, o'. split; [|exact R]. cbv zeta in H |- *. simpl tl. exact H.
+    + pose proof (clamp_bounds n c ltac:(lia)) as Hm.
+      destruct (deliver (clamp n c) rs ltac:(lia) ltac:(simpl; lia) ltac:(discriminate)) as (r & bytes & o' & H & R).
+      exists r, bytes, o'. split; [|exact R]. cbv zeta in H |- *. simpl tl. exact H.
+    + (* EINTR *)
+      cbv zeta. change (-1 =? 0) with false. change (-1 =? -1) with true. change (EINTR =? EINTR) with true. cbv iota.
+      set (o1 := mkOs (disk o) (pos o) rs (sys_err o) (LRead (pos o) c (-1) :: log o) (rderr o)).
+      destruct (IH o1 lft acc) as (r & bytes & o' & Hrun & Hd & Hn & Hres).
+      { subst o1; simpl. simpl in Hf. lia. }
+      exists r, bytes, o'. split; [exact Hrun|]. split; [rewrite Hd; reflexivity|].
+      split; [discriminate|]. exact Hres.
+    + (* hard error: rderr is set; if errno happens to be EINTR's number the C code retries *)
+      cbv zeta. change (-1 =? 0) with false. change (-1 =? -1) with true. cbv iota.
+      destruct (e =? EINTR) eqn:Ee.
+      * set (o1 := mkOs (disk o) (pos o) rs (sys_err o) (LRead (pos o) c (-1) :: log o) (rderr o)).
+        destruct (IH o1 lft acc) as (r & bytes & o' & Hrun & Hd & Hn & Hres).
+        { subst o1; simpl. simpl in Hf. lia. }
+        exists r, bytes, o'. split; [exact Hrun|]. split; [rewrite Hd; reflexivity|].
+        split; [discriminate|]. exact Hres.
+      * exists (-1), acc, (set_sys_err (mkOs (disk o) (pos o) rs (sys_err o) (LRead (pos o) c (-1) :: log o) true) e).
+        repeat split; auto; try discriminate.
+Qed.
